@@ -516,11 +516,16 @@ func (lineParser *LineParser) parseValue() (Value, error) {
 				return Value{}, err
 			}
 
+			if err := lineParser.consumeWhitespace(); err != nil {
+				return Value{}, fmt.Errorf("failed to consume whitespace: %w", err)
+			}
+			remaining := lineParser.reader.Len()
 			fraction, err := lineParser.parseInteger()
 			if err != nil {
 				return Value{}, fmt.Errorf("failed to parse fraction: %w", err)
 			}
-			f := float64(i) + float64(fraction)*float64(math.Pow10(-len(strconv.Itoa(fraction))))
+			fractionDigits := remaining - lineParser.reader.Len() // leading zeros count: 1.05 is not 1.5
+			f := float64(i) + float64(fraction)*float64(math.Pow10(-fractionDigits))
 
 			return Value{FloatValue: f, ValueType: ValueTypeFloat}, nil
 		} else {
